@@ -480,13 +480,17 @@ def plain_run(src: str) -> Dict[str, Any]:
 # The implementation under the permission
 
 def pg_run(src: str, mask: int, mode: str, api: str = 'evaluate') -> Dict[str, Any]:
-  """mode: 'param' (permission=...), 'scope', 'nested_all' (outer mask, inner ALL), 'nested_none' (outer mask,
+  """mode: 'arg_in_scope:Q' (scope mask, argument Q), 'param' (permission=...), 'scope', 'nested_all' (outer mask, inner ALL), 'nested_none' (outer mask,
   inner nothing), 'outer_all' (outer ALL, inner mask: the OUTER one must win)."""
   env, rec = make_env()
   fn = pg.coding.evaluate if api == 'evaluate' else (lambda *a, **k: pg.coding.run(*a, sandbox=False, **k))
   res: Dict[str, Any] = {'outcome': None}
   try:
-    if mode == 'param':
+    if mode.startswith('arg_in_scope:'):
+      # an explicit permission ARGUMENT (the number after the colon) inside an open scope `mask`
+      with pg.coding.permission(P(mask)):
+        out = fn(src, global_vars=env, permission=P(int(mode.split(':')[1])), outputs_intermediate=True)
+    elif mode == 'param':
       out = fn(src, global_vars=env, permission=P(mask), outputs_intermediate=True)
     else:
       with contextlib.ExitStack() as st:
